@@ -282,6 +282,15 @@ Definition relpath_comps (path start : list str) : list str :=
    digest of the legend identifier and str(scale) (scale: float or None, see WMSLegendGraphicRequestParams._get_scale) *)
 Definition legend_location (cache_dir hash : str) (ext : string) : str := join1 cache_dir hash ++ 46 :: s2z ext.
 
+(* ------------------------------------------------------------------ cache/file.py: FileCache._single_color_tile_location *)
+(* os.path.join(self.cache_dir, 'single_color_tiles', ''.join('%02x' % v for v in color) + '.' + self.file_ext) - built from the
+   cache directory alone, never from the location of the tile that links to it.  The colour is a tuple of bytes (a PIL pixel,
+   0..255 each); '%02x' of a byte is two hex digits. *)
+Definition hex2 (v : Z) : str := [digit_char (v / 16); digit_char (v mod 16)].
+Definition sct_name : str := s2z "single_color_tiles".
+Definition single_color_location (cache_dir : str) (color : list Z) (ext : string) : str :=
+  posix_join cache_dir [sct_name; flat_map hex2 color ++ 46 :: s2z ext].
+
 (* ------------------------------------------------------------------ multiapp *)
 Fixpoint lstrip47 (s : str) : str :=
   match s with
